@@ -2,6 +2,7 @@ import Grexv.Lemmas.Trie
 import Grexv.Lemmas.TrieExact
 import Grexv.Lemmas.ExprLang
 import Grexv.Lemmas.Contracts
+import Grexv.Lemmas.Quotient
 import Grexv.Props.C13
 
 /-!
@@ -69,6 +70,29 @@ theorem union_language (cfg : Config) (a b : Option Expr)
     olang (Expr.union cfg a b) w ↔ olang a w ∨ olang b w :=
   Expr.union_lang cfg a b ha hb w
 
+/-- **S6 (minimisation, quotient step)** whenever the executable stability check holds on the partition the
+refinement loop produced (the driver evaluates it on every input of the S stream), the minimised
+automaton accepts a label sequence iff the trie does and the sequence is non-empty or the start class
+was recorded as final.  The last clause is known finding D1 stated exactly: `recreate_graph` records
+a class as final only when it is the target of an edge -/
+theorem minimize_language (d : Dfa) (pick : Dfa.Block → Nat) (m : Dfa) (hm : Dfa.minimize d pick = some m)
+    (hc : Dfa.minimizeContractB d pick = true) (w : List Grapheme) :
+    m.Accepts w ↔ (d.Accepts w ∧ (w ≠ [] ∨ m.init ∈ m.finals)) :=
+  Dfa.minimize_accepts d pick m hm hc w
+
+/-- **S5+S6 composed** without repetition conversion: the minimised automaton accepts exactly the non-empty
+converted test cases (and the empty one iff the start class was recorded as final), for every input
+on which the stability check holds -/
+theorem minimized_language_exact (cfg : Config) (env : Env) (ws : List Str) (hrep : cfg.rep = false) (m : Dfa)
+    (hm : Dfa.minimize (Dfa.trie (graphemeClusters cfg env ws)) Dfa.pickMin = some m)
+    (hc : Dfa.minimizeContractB (Dfa.trie (graphemeClusters cfg env ws)) Dfa.pickMin = true) (w : List Grapheme) :
+    m.Accepts w ↔ (w ∈ graphemeClusters cfg env ws ∧ (w ≠ [] ∨ m.init ∈ m.finals)) := by
+  rw [minimize_language _ _ m hm hc w, trie_language_exact cfg env ws hrep w]
+
+/-- non-vacuity: the stability check holds on a concrete trie, and D1 is visible: `["", "a"]` -/
+example : Dfa.minimizeContractB (Dfa.trie [[], [Grapheme.ofStr [97]]]) Dfa.pickMin = true := by decide
+example : ((Dfa.minimize (Dfa.trie [[], [Grapheme.ofStr [97]]]) Dfa.pickMin).map fun m => (m.init, m.finals)) = some (0, [1]) := by decide
+
 /-- **S7 (state elimination)** for every automaton with plain labels on which the three executable
 contracts hold (closed depth-first order, no self loop met by the loop, at least one state — the
 driver evaluates them on every input of the S stream), the expression left in `b[0]` by the
@@ -76,6 +100,22 @@ elimination loop of `Expression::from` denotes exactly the words accepted from t
 theorem elimination_language (cfg : Config) (d : Dfa) (h : elimContractsB cfg d = true) (w : Word) :
     olang (((List.range d.nodes).reverse.foldl (elimStep cfg) (elimInit cfg d d.dfs)).b.get 0) w ↔ d.LangFrom d.init w :=
   elimination_lang_checked cfg d h w
+
+theorem accepts_iff_langFrom (d : Dfa) (w : Word) : d.Accepts w ↔ d.LangFrom d.init w := by
+  simp [Dfa.Accepts, Dfa.LangFrom, Dfa.isFinal, List.contains_iff_mem]
+
+/-- **S5+S6+S7 composed (symbol level)** without repetition conversion, for every input on which the two
+executable contracts hold, the expression computed from the minimised automaton denotes exactly the
+converted test cases — except that the empty one is dropped unless the start class was recorded as
+final (known finding D1).  A language difference in the final pattern is therefore attributable to
+exactly one place before printing: that clause -/
+theorem pipeline_symbol_level (cfg : Config) (env : Env) (ws : List Str) (hrep : cfg.rep = false) (m : Dfa)
+    (hm : Dfa.minimize (Dfa.trie (graphemeClusters cfg env ws)) Dfa.pickMin = some m)
+    (hc1 : Dfa.minimizeContractB (Dfa.trie (graphemeClusters cfg env ws)) Dfa.pickMin = true)
+    (hc2 : elimContractsB cfg m = true) (w : Word) :
+    olang (((List.range m.nodes).reverse.foldl (elimStep cfg) (elimInit cfg m m.dfs)).b.get 0) w ↔
+      (w ∈ graphemeClusters cfg env ws ∧ (w ≠ [] ∨ m.init ∈ m.finals)) := by
+  rw [elimination_language cfg m hc2 w, ← accepts_iff_langFrom, minimized_language_exact cfg env ws hrep m hm hc1 w]
 
 /-- and `Expression::from` returns that expression, or the empty literal when `b[0]` is `None` -/
 theorem ofDfa_is_b0 (cfg : Config) (d : Dfa) :
